@@ -29,8 +29,10 @@ for p in mutants/*.patch seeded/*/patch.diff; do
     if echo "$out" | grep -q "^VIOLATION property=$i"; then caught="$caught $i"; fi
   done
   git -C /repo checkout -- . ; git -C /repo clean -fdq zygo cmd 2>/dev/null
-  if [ -n "$caught" ]; then pass=$((pass+1)); echo "CAUGHT $p by$caught (repo tests: $tests)"; report="$report\nCAUGHT $p by$caught tests=$tests";
-  else fail=$((fail+1)); echo "MISSED $p (repo tests: $tests)"; report="$report\nMISSED $p tests=$tests"; fi
+  if [ -n "$caught" ]; then pass=$((pass+1)); echo "CAUGHT $p by$caught (repo tests: $tests)"; report="$report\nCAUGHT $p by$caught tests=$tests"; line="CAUGHT $p by$caught tests=$tests";
+  else fail=$((fail+1)); echo "MISSED $p (repo tests: $tests)"; report="$report\nMISSED $p tests=$tests"; line="MISSED $p tests=$tests"; fi
+  # record this patch's result at once, so that an interrupted run keeps what it has established
+  echo "$line" > bin/selftest.one; python3 tools/selftest_merge.py bin/selftest.one "$(git -C /repo log --format=%h -1)"
 done
 echo -e "$report" > bin/selftest.report
 # selftest_results.tsv accumulates the latest result per patch (partial runs update only their own lines);
